@@ -128,19 +128,9 @@ where
                 let mut ret = Ordering::Equal;
                 for (order, rev) in q.order_by() {
                     if *rev {
-                        ret = ret.then(
-                            b.get(order)
-                                .unwrap()
-                                .to_string()
-                                .cmp(&a.get(order).unwrap().to_string()),
-                        );
+                        ret = ret.then(cmp_value(b.get(order).unwrap(), a.get(order).unwrap()));
                     } else {
-                        ret = ret.then(
-                            a.get(order)
-                                .unwrap()
-                                .to_string()
-                                .cmp(&b.get(order).unwrap().to_string()),
-                        );
+                        ret = ret.then(cmp_value(a.get(order).unwrap(), b.get(order).unwrap()));
                     }
                 }
 
@@ -268,6 +258,22 @@ impl Expr {
                 false
             }
         }
+    }
+}
+
+/// compares two values of a column, numbers by value and the others by text
+fn cmp_value(a: &JsonValue, b: &JsonValue) -> Ordering {
+    match (a, b) {
+        (JsonValue::Number(a), JsonValue::Number(b)) => match (a.as_i64(), b.as_i64()) {
+            (Some(a), Some(b)) => a.cmp(&b),
+            _ => a
+                .as_f64()
+                .unwrap_or_default()
+                .partial_cmp(&b.as_f64().unwrap_or_default())
+                .unwrap_or(Ordering::Equal),
+        },
+        (JsonValue::String(a), JsonValue::String(b)) => a.cmp(b),
+        _ => a.to_string().cmp(&b.to_string()),
     }
 }
 
